@@ -629,10 +629,16 @@ impl Interval {
     pub fn mix(self: Interval, rhs: Interval) -> Interval {
         // We'll treat NANs as invalid values instead of valid bitwise seeds,
         // just to be on the safe side.
+        //
+        // A zero interval does not know the sign of the zero it stands for
+        // (`[-1, 1] * 0` is `[0, 0]`, while the point value at -1 is `-0.0`),
+        // and the hash depends on that sign bit.
         if self.has_nan()
             || rhs.has_nan()
             || self.lower().to_bits() != self.upper().to_bits()
             || rhs.lower().to_bits() != rhs.upper().to_bits()
+            || self.lower() == 0.0
+            || rhs.lower() == 0.0
         {
             f32::NAN.into()
         } else {
@@ -647,8 +653,12 @@ impl Interval {
     /// Pseudo-random number generation
     pub fn rand(&self) -> Interval {
         // We'll treat NANs as mystery values here, instead of as valid bitwise
-        // seeds.  This is conservative but should be fine.
-        if self.has_nan() || self.lower().to_bits() != self.upper().to_bits() {
+        // seeds.  This is conservative but should be fine.  The same goes for
+        // a zero, whose sign bit the interval cannot vouch for.
+        if self.has_nan()
+            || self.lower().to_bits() != self.upper().to_bits()
+            || self.lower() == 0.0
+        {
             Interval::new(0.0, 1.0)
         } else {
             crate::rng::rand(self.lower().to_bits()).into()
